@@ -183,7 +183,9 @@ func tssSign(hash []byte) string {
 func unwrapSignature(nc, chain uint32, tx types.Hash, logIndex uint32, to types.Address, tokenAddr string, amount *big.Int) string {
 	msg, err := implementation.GetUnwrapTokenRequestMessage(&definition.UnwrapTokenParam{NetworkClass: nc, ChainId: chain, TransactionHash: tx,
 		LogIndex: logIndex, ToAddress: to, TokenAddress: tokenAddr, Amount: amount})
-	must(err)
+	if err != nil {
+		return "unsignable: " + err.Error() // e.g. an unsupported network class: there is no message to sign
+	}
 	return tssSign(msg)
 }
 
@@ -288,7 +290,7 @@ func buildEntries(p *pair, env0 *stateEnv) (*stateEnv, string) {
 		h1 := b.send(owner, types.HtlcContract, znn, big8(10), definition.ABIHtlc.PackMethodPanic(definition.CreateHtlcMethodName, stranger.Address, far, uint8(definition.HashTypeSHA3), uint8(32), lock))
 		b.step()
 		s256 := sha256.Sum256(htlcPreimage)
-		soon := int64(g.EmbeddedGenesis.GenesisTimestampSec) + 60*24*3600
+		soon := int64(g.EmbeddedGenesis.GenesisTimestampSec) + 12*3600
 		h2 := b.send(owner, types.HtlcContract, env.Custom, big.NewInt(100), definition.ABIHtlc.PackMethodPanic(definition.CreateHtlcMethodName, stranger.Address, soon, uint8(definition.HashTypeSHA256), uint8(255), s256[:]))
 		b.step()
 		add("htlc", h2.Hash)
@@ -355,19 +357,17 @@ func buildEntries(p *pair, env0 *stateEnv) (*stateEnv, string) {
 	return env, b.fail
 }
 
-// buildMatured: entries + 88 days: the stake, the short HTLC, the fusion and the liquidity stake are past expiration,
-// the pillars and the sentinel are inside their revoke windows, 88 reward epochs are due; then every contract is updated
-// once so that rewards can be collected.
+const maturedAfter = 26 * 3600 // seconds after genesis
+
+// buildMatured: entries + a jump to 26 hours after genesis: the stake, the short HTLC, the fusion and the liquidity stake
+// are past expiration, the pillars and the sentinel are inside their revoke windows, the first reward epoch is due; then
+// every contract is updated once so that rewards can be collected.
 func buildMatured(p *pair, env0 *stateEnv) (*stateEnv, string) {
 	env := env0.clone()
 	env.Base = "matured"
 	b := &builder{p: p, env: env}
 	n := p.P
-	skip := 88 * 24 * 360
-	target := n.NextSlot(skip)
-	if _, err := n.Cons.GetMomentumProducer(target); err != nil {
-		return env, "matured: " + err.Error()
-	}
+	skip := int((genesisT+maturedAfter-n.Frontier().Timestamp.Unix())/10) - 1
 	// one momentum far in the future (slots in between are missed), produced by whoever is elected for that slot
 	t0 := time.Now()
 	if err := produceSkipping(n, skip); err != nil {
